@@ -377,11 +377,39 @@ def argument_forms(part, ta, tb):
                                        {"used": [str(used0), str(used1), liq], "expected": [str(e0), str(e1), eliq]})
 
 
+def neighbours_first():
+    """What a strategy typically does before it ever touches the liquidity math: let the library search a range for a wanted token ratio, ask for the greeks of a
+    range, estimate ratios, size a swap. These helpers live next to the math and share its process-wide state (decimal context, memos): the math must be
+    the same after them as before (the grid below is evaluated AFTER these calls in every job)."""
+    import contextlib
+    import io
+    from decimal import Decimal
+
+    from demeter.uniswap import helper, liquitidy_math
+
+    with contextlib.redirect_stdout(io.StringIO()):
+        found = [helper.find_tick_range_at_rate(Decimal("1800"), Decimal("1"), 10, 6, 18, True, error=Decimal("0.01")),
+                 helper.find_tick_range_at_rate(Decimal("0.0005"), Decimal("2"), 60, 18, 6, False, error=Decimal("0.01")),
+                 helper.find_tick_range_at_rate(Decimal("1800"), Decimal("1"), 10, 6, 18, True, error=Decimal("0.000000000001"))]  # usually finds nothing
+        helper.get_greeks(Decimal("1800"), Decimal("1500"), Decimal("2100"))
+        liquitidy_math.estimate_ratio(201360, 199440, 203270)
+        liquitidy_math.amounts_relation(201360, 199440, 203270, 6, 18)
+        helper.get_swap_value(Decimal(1000), Decimal(0), Decimal("0.0005"), Decimal(1))
+        helper.get_swap_value_with_part_balance_used(Decimal(1000), Decimal(10), Decimal("0.0005"), Decimal(1), Decimal(500))
+    return found
+
+
 def work(args):
     seed, pairs = args
     import demeter.uniswap  # sets the library's 35-digit context, as any user import does
 
     part = Part(seed)
+    try:
+        found = neighbours_first()
+        part.count("neighbour_helper_rounds")
+        part.count("range_searches_successful", sum(1 for f in found if f is not None))
+    except Exception as e:  # noqa: BLE001 - the helpers themselves are not this property's subject; what they leave behind is
+        part.count(f"neighbour_helpers_raised.{type(e).__name__}")
     for ta, tb in pairs:
         part.count("tick_pairs")
         part.sample({"lower": ta, "upper": tb, "prices": "11 points on/around/between the bounds", "decimals": "{6,8,18}^2",
